@@ -9,9 +9,10 @@
   histories.  Proved: crop, get, set, push, unshift, pop, shift, align (incl. the 1024-byte block
   rotation of mpt_memrev), resize, string (ok + refusal cases, memory bounds), the history theorem over
   these operations, prepare, find (first element-aligned match or documented refusal), and the C++
-  `io::queue` wrappers push/unshift/pop/shift/write.  Correspondence only: `io::queue::read/peek`, `pipe<T>::elements()`, `mpt_queue_load/save` (`load_statement`, `save_statement`).
+  `io::queue` wrappers push/unshift/pop/shift/write, `mpt_queue_load/save` (descriptor = byte source/sink).
+  `io::queue::read/peek` and `pipe<T>::elements()` (as `peek` of everything).
 -/
-import MptModel.Lemmas.Ring4
+import MptModel.Lemmas.Ring5
 
 namespace Mpt.C13
 open Mpt Mpt.Ring
@@ -330,18 +331,70 @@ theorem cxx_write (r : Ring) (h : r.WF) (part : Nat) (hp : 0 < part) (elems : Li
 
 example : (Ring.make 8 6 [1, 2, 3, 4]).find [3, 4] = .ok (some 0) := by decide
 
-/-! ### Stated, not proved (tied to the code by the correspondence run only) -/
+/-! ### `mpt_queue_load` / `mpt_queue_save` (descriptor side modelled as "these bytes are ready, then end of
+    file" and "accepts everything"; short reads/writes of the OS are driven by the harness only) -/
 
 /-- `mpt_queue_load(len)` appends the first `min avail cap` bytes the descriptor offers (cap = free space,
-    or `len` when `0 < len < free`) and refuses a full queue -/
-def load_statement : Prop :=
-  ∀ (r : Ring) (len : Nat) (bytes : List Byte), r.WF → r.len < r.store.length →
+    or `len` when `0 < len < free`), in order, for every ring state (wrapped or not) -/
+theorem load_appends (r : Ring) (len : Nat) (bytes : List Byte) (h : r.WF) (hfree : r.len < r.store.length) :
     let cap := if len = 0 ∨ len ≥ r.store.length - r.len then r.store.length - r.len else len
     ∃ r', r.load len bytes = .ok (r', min bytes.length cap) ∧ r'.WF ∧
-      r'.content = r.content ++ bytes.take (min bytes.length cap)
+      r'.content = r.content ++ bytes.take (min bytes.length cap) :=
+  load_spec r len bytes h hfree
+
+/-- a full queue refuses `mpt_queue_load` (the literal `-2`) and is left as it was -/
+theorem load_full_refused (r : Ring) (len : Nat) (bytes : List Byte) (hfull : r.store.length ≤ r.len) :
+    r.load len bytes = .err .BadValue := by
+  unfold Ring.load
+  rw [empty_none r hfull]
 
 /-- `mpt_queue_save` writes the whole content in order and leaves the queue empty -/
-def save_statement : Prop :=
-  ∀ (r : Ring), r.WF → ∃ r', r.save = .ok (r', r.content) ∧ r'.WF ∧ r'.content = []
+theorem save_drains (r : Ring) (h : r.WF) :
+    ∃ r', r.save = .ok (r', r.content) ∧ r'.WF ∧ r'.content = [] :=
+  save_spec r h
+
+example : ((Ring.make 8 6 [1, 2, 3, 4]).load 3 [9, 8, 7, 6, 5]).bind (fun p => .ok (p.1.content, p.2))
+    = .ok ([1, 2, 3, 4, 9, 8, 7], 3) := by decide
+example : (Ring.make 8 6 [1, 2, 3, 4]).save.bind (fun p => .ok (p.1.content, p.2))
+    = .ok ([], [1, 2, 3, 4]) := by decide
+
+/-! ### C++ `io::queue::read`, `io::queue::peek`, `pipe<T>::elements()` -/
+
+/-- `io::queue::read(len, data, part)`: the elements are taken off the END of the content, last element first;
+    what is left, followed by the elements in their original order, is the old content; all `len` elements
+    are delivered whenever `len * part` bytes are there -/
+theorem cxx_read (r : Ring) (h : r.WF) (part k : Nat) :
+    ∃ r' outs, r.xread part k = .ok (r', outs) ∧ r'.WF ∧ r'.store.length = r.store.length ∧
+      r'.content ++ outs.reverse.flatten = r.content ∧ (∀ o ∈ outs, o.length = part) ∧
+      outs.length ≤ k ∧ (k * part ≤ r.len → outs.length = k) :=
+  xread_spec r h part k
+
+/-- `io::queue::peek(len)` (0 = everything): never changes the content (it may re-align the storage), the
+    span it returns is a prefix of the content, and it covers the request whenever the request can be met -/
+theorem cxx_peek (r : Ring) (h : r.WF) (n : Nat) :
+    ∃ r' out, r.xpeek n = .ok (r', out) ∧ r'.WF ∧ r'.content = r.content ∧
+      ∃ m, out = r.content.take m ∧ m ≤ r.len ∧
+        ((if n = 0 then r.len else n) ≤ r.len → (if n = 0 then r.len else n) ≤ m) :=
+  xpeek_spec r h n
+
+/-- `pipe<T>::elements()` = `peek()` of everything: the span is the whole content, in order (the template
+    then cuts it to a multiple of `sizeof(T)`) -/
+theorem cxx_peek_all (r : Ring) (h : r.WF) :
+    ∃ r', r.xpeek 0 = .ok (r', r.content) ∧ r'.WF ∧ r'.content = r.content := by
+  obtain ⟨r', out, he, hw, hc, m, ho, hm, hreq⟩ := xpeek_spec r h 0
+  have hm' : m = r.len := by
+    have := hreq (by simp)
+    simp only [↓reduceIte] at this
+    omega
+  have hcl := content_length r h.1 h.2
+  refine ⟨r', ?_, hw, hc⟩
+  rw [he, ho, hm', List.take_of_length_le (by omega)]
+
+-- peek of a wrapped ring returns the first part when that suffices; read takes the last two 2-byte elements
+-- off a wrapped ring (the re-aligning case of peek runs the well-founded block rotation, not evaluated here)
+example : ((Ring.make 4 3 [97, 98, 99]).xpeek 1).bind (fun p => .ok (p.1.content, p.2))
+    = .ok ([97, 98, 99], [97]) := by decide
+example : ((Ring.make 8 6 [1, 2, 3, 4, 5]).xread 2 2).bind (fun p => .ok (p.1.content, p.2))
+    = .ok ([1], [[4, 5], [2, 3]]) := by decide
 
 end Mpt.C13
